@@ -65,7 +65,7 @@ Definition kstep_do (k : bconf) (x : kstep) : bconf :=
       match kget k i with
       | KIdle =>
           if k_held k <? k_cap k then with_threads k (k_held k + 1) (k_ext k) (set_k i KHolding (k_threads k)) (k_queue k)
-          else if k_maxwait k =? 0 then with_threads k (k_held k) (k_ext k) (set_k i KRefused (k_threads k)) (k_queue k)
+          else if k_maxwait k <=? 0 then with_threads k (k_held k) (k_ext k) (set_k i KRefused (k_threads k)) (k_queue k)
           else with_threads k (k_held k) (k_ext k) (set_k i (KWaiting (k_now k + k_maxwait k)) (k_threads k)) (k_queue k ++ [i])
       | _ => k
       end
